@@ -11,6 +11,8 @@ from .c12 import future_info, check_pair
 
 KEYWORDS = {"impl", "for", "trait", "type", "pub", "use", "as", "dyn", "self", "Self", "where", "fn", "async", "mod", "super", "crate", "move", "await"}
 RESERVED = {"EntraitT", "__impl", "T", "Target"}                      # the macro's own generic parameter / receiver identifiers
+# the macro's own generic *lifetime* parameter (names the elided `&self` lifetime on a static delegation-target method)
+RESERVED_LIFETIMES = {"'static", "'entrait_self"}
 CRATES = {"entrait", "core", "__unimock", "unimock", "mockall", "__async_trait", "async_trait", "automock"}
 ATTR_KEYS = {"cfg_attr", "test", "prefix", "api", "unmock_with", "Output"}
 METHODS = {"as_ref", "borrow"}
@@ -63,7 +65,7 @@ def run(tier):
         for lit, kind, wh in lits:
             nlit += 1
             if lit.startswith("'"):
-                if lit != "'static":
+                if lit not in RESERVED_LIFETIMES:
                     rep.add("G-HYGIENE", "%s lifetime %s" % (owner, lit), "the generator emits the lifetime literal `%s`" % lit, where=wh)
                 continue
             if lit in KEYWORDS or lit in RESERVED or lit in CRATES or lit in ATTR_KEYS or lit in METHODS:
